@@ -36,9 +36,15 @@ func buildDoc() pdfw.Doc {
 	for p := 0; p < nPages; p++ {
 		var pg pdfw.Page
 		for l := 0; l < 3; l++ {
-			txt := fmt.Sprintf("pg%dln%d alpha%d%d bravo%d%d charlie%d%d delta%d%d echo%d%d", p+1, l+1, p+1, l, p+1, l, p+1, l, p+1, l, p+1, l)
+			// every page numbers its fonts by first use (Layout.PerPageFonts): /F1 is WinAnsi Helvetica on odd
+			// pages and a MacRoman TrueType font on even pages, and the accented token tells them apart
+			txt := fmt.Sprintf("pg%dln%d alpha%d%d bravo%d%d charlie%d%d delta%d%d caf\u00e9%d%d", p+1, l+1, p+1, l, p+1, l, p+1, l, p+1, l, p+1, l)
 			pageLines[p] = append(pageLines[p], txt)
-			pg.Lines = append(pg.Lines, pdfw.Line{Font: pdfw.Type1WinAnsi, Text: txt, X: 72, Y: 700 - float64(l)*14, Size: 12})
+			kind := pdfw.Type1WinAnsi
+			if (p+l)%2 == 1 {
+				kind = pdfw.TrueTypeMacRoman
+			}
+			pg.Lines = append(pg.Lines, pdfw.Line{Font: kind, Text: txt, X: 72, Y: 700 - float64(l)*14, Size: 12})
 		}
 		d.Pages = append(d.Pages, pg)
 	}
@@ -164,7 +170,7 @@ func run(e *harness.Env) {
 	dir := harness.Scratch()
 	defer os.RemoveAll(dir)
 	path := filepath.Join(dir, "four.pdf")
-	built := pdfw.Write(buildDoc(), pdfw.Layout{})
+	built := pdfw.Write(buildDoc(), pdfw.Layout{PerPageFonts: true})
 	if err := os.WriteFile(path, built.Bytes, 0o644); err != nil {
 		panic(err)
 	}
